@@ -3,7 +3,7 @@ plus token-level mutations (the *malformed stream*).  Every choice comes from
 the `random.Random` passed in."""
 import random
 
-from items import (COMMA, JUNK, PA, respell, Attr, Body, Field, Gen, I, Ident, Item, MList, MNameValue,
+from items import (COMMA, JUNK, PA, respell, regroup, Attr, Body, Field, Gen, I, Ident, Item, MList, MNameValue,
                    MPathM, P, Param, Variant, metas_body, traits_body)
 
 STD_TRAITS = ['Clone', 'Copy', 'Debug', 'Default', 'Eq', 'Hash', 'Ord', 'PartialEq', 'PartialOrd']
@@ -324,6 +324,8 @@ def gen_item(rng, zeroize_ok=True):
         attrs.insert(rng.randrange(len(attrs) + 1), Attr('dw', metas_body([MPathM('incomparable')])))
     it = Item(kind, ident, params, preds, preds_trailing, attrs, variants,
                 pick(rng, ['', '', 'pub ', 'pub(crate) ']))
+    if chance(rng, 0.3):
+        it = regroup(rng, it)
     return respell(rng, it)
 
 
